@@ -518,6 +518,68 @@ def check_feedback(ctx, iters):
     ctx.cls("feedback_cases")
 
 
+def check_feedback_tensors(ctx, iters, mode):
+    """Tensor-valued stages. mode: 'changing' (every round's feedback differs), 'constant' (the same feedback tensor every round, e.g. a one-bit
+    NACK over a bad link), 'saturating' (changes, then stays).  The number of rounds is max_iterations whatever the feedback looks like."""
+    import torch
+    from kaira.channels.base import BaseChannel
+    from kaira.models.base import BaseModel
+    from kaira.models.feedback_channel import FeedbackChannelModel
+    log = []
+
+    class Enc(BaseModel):
+        def forward(self, x, state=None, *a, **kw):
+            log.append("enc")
+            return x + (0.0 if state is None else state.mean())
+
+    class Dec(BaseModel):
+        def forward(self, y, *a, **kw):
+            log.append("dec")
+            return y * 0.5
+
+    class FbGen(BaseModel):
+        def __init__(self):
+            super().__init__()
+            self.n = 0
+
+        def forward(self, decoded, data, *a, **kw):
+            log.append("fbgen")
+            self.n += 1
+            if mode == "constant":
+                return torch.zeros(1)
+            if mode == "saturating":
+                return torch.tensor([float(min(self.n, 2))])
+            return torch.tensor([float(self.n)])
+
+    class FbProc(BaseModel):
+        def forward(self, fb, *a, **kw):
+            log.append("fbproc")
+            return fb
+
+    class Ch(BaseChannel):
+        def __init__(self, sid):
+            super().__init__()
+            self.sid = sid
+
+        def forward(self, x, *a, **kw):
+            log.append(self.sid)
+            return x
+    m = FeedbackChannelModel(Enc(), Ch("fwd"), Dec(), FbGen(), Ch("fbch"), FbProc(), max_iterations=iters)
+    res = m(torch.ones(2, 3))
+    exp = []
+    for i in range(iters):
+        if i > 0:
+            exp.append("fbproc")
+        exp += ["enc", "fwd", "dec", "fbgen", "fbch"]
+    cell = {"model": "feedback", "feedback": mode}
+    case = {"kind": "feedback_tensors", "iters": iters, "mode": mode}
+    ctx.ev()
+    ctx.check(log == exp and len(res["iterations"]) == iters and len(res["feedback_history"]) == iters, "C17.f_rounds", cell, case, {"rounds": log.count("enc"), "iterations": len(res["iterations"])},
+              {"rounds": iters}, "feedback model did not perform exactly the configured number of rounds in the documented order", CHK)
+    ctx.nontrivial("fbt", iters, mode)
+    ctx.cls("feedback_cases")
+
+
 def check_mac(ctx, enc_ids, joint):
     """enc_ids: list of encoder identities per user (repeats = shared instances)."""
     import torch
@@ -640,6 +702,8 @@ def unit_misc(ctx, n_gen):
     ctx.exhaustive("branching_condition_tables_len<=4", True)
     for it in range(1, 6):
         check_feedback(ctx, it)
+        for mode in ("changing", "constant", "saturating"):
+            check_feedback_tensors(ctx, it, mode)
     for n in range(1, 5):
         for ids in itertools.product(range(n), repeat=n):
             if n <= 3 or len(set(ids)) in (1, 2, n):
@@ -677,6 +741,8 @@ def check_case(ctx, cell, case):
         check_branching_history(ctx, [tuple(o) for o in case["ops"]])
     elif k == "feedback":
         check_feedback(ctx, case["iters"])
+    elif k == "feedback_tensors":
+        check_feedback_tensors(ctx, case["iters"], case["mode"])
     elif k == "mac_alias":
         check_mac_aliasing(ctx, case["n"], case["shared_input"])
     elif k == "mac":
